@@ -20,6 +20,9 @@ def outcomeOf (c : Cfg) (s : State) : Option Outcome :=
   else if s.hung c then some .hang
   else none
 
+/-- was some file-system operation performed so far made to fail? (what the harness reports as `fired`) -/
+def firedB (c : Cfg) (s : State) : Bool := (List.range s.ioc).any c.fault
+
 /-- **liveness clause**: the session ends — `stop()` returns or raises -/
 def terminates (o : Outcome) : Bool := o != .hang
 
